@@ -3,7 +3,7 @@ sys.path.insert(0,'/repo')
 from nix_manipulator import parse
 from nix_manipulator.parser import parse_to_ast
 import importlib.util
-spec = importlib.util.spec_from_file_location('gc', '/tmp/scratch/gen_canon.py')
+spec = importlib.util.spec_from_file_location('gc', 'notes/probes/gen_canon.py')
 R = random.Random(int(sys.argv[1]))
 def leaves(n, out):
     if n.type in ('string_expression','indented_string_expression','comment','path_expression','spath_expression','hpath_expression') or n.child_count==0:
@@ -48,7 +48,7 @@ def perturb(s, mode):
     res += s.encode()[pos:].decode()
     return res
 sys.argv=[sys.argv[0], sys.argv[1], '0']
-exec(open('/tmp/scratch/gen_canon.py').read().split('bad=0')[0])
+exec(open('notes/probes/gen_canon.py').read().split('bad=0')[0])
 stats=collections.Counter(); ex={}
 N=int(sys.argv[2]) if False else 1500
 mode = 'ws'
